@@ -69,6 +69,7 @@ structure Choreo where
   wlErrCloses : Bool       -- a write error calls closeNetConn
   tlCw : Bool              -- timerLoop selects on closeWriteLoopCh and returns
   shCw : Bool        -- arms of Shutdown's select
+  shCwChecks : Bool  -- the closeWriteLoopCh arm reads the completion flags under a.lock: nil only if the peer's SHUTDOWN-ACK / SHUTDOWN-COMPLETE came
   shCtx : Bool
   cnHs : Bool   -- arms of the client constructor's select (ctx arm calls Close())
   cnRc : Bool
@@ -83,6 +84,7 @@ structure Choreo where
   unregSetsErr : Bool      -- unregisterStream stores the error unconditionally
   unregDeletes : Bool
   unblockCloses : Bool     -- unblockPendingWrites closes writeNotify
+  dlKeepsTerminal : Bool   -- the helper goroutine of SetReadDeadline sets the deadline error only `if s.readErr == nil`
   deriving DecidableEq, Repr, Inhabited
 
 def Choreo.expected : Choreo where
@@ -99,6 +101,7 @@ def Choreo.expected : Choreo where
   wlErrCloses := true
   tlCw := true
   shCw := true
+  shCwChecks := true
   shCtx := true
   cnHs := true
   cnRc := true
@@ -113,6 +116,7 @@ def Choreo.expected : Choreo where
   unregSetsErr := true
   unregDeletes := true
   unblockCloses := true
+  dlKeepsTerminal := true
 
 inductive Holder | rlCH | tcCH | rlDefer
   deriving DecidableEq, Repr, Inhabited
@@ -122,6 +126,7 @@ inductive Err
   | transport                -- netConn.Read failed (peer closed, injected failure, read deadline, our own Close)
   | abort (cause : String)   -- handleAbort: the error text lists the causes of the ABORT chunk
   | closedBeforeConn | handshake | ctx | notEstablished | shutdownNonEstablished
+  | shutdownIncomplete       -- Shutdown: the association closed before the peer's SHUTDOWN-ACK / SHUTDOWN-COMPLETE arrived
   deriving DecidableEq, Repr, Inhabited
 
 inductive Res
@@ -137,6 +142,7 @@ inductive Pkt
   | abort (cause : String)
   | reset (sid : Nat)        -- outgoing-reset request for stream sid performed now
   | shutdownComplete
+  | shutdownAck              -- the peer's SHUTDOWN-ACK: shutdownCompletePending := true
   deriving DecidableEq, Repr, Inhabited
 
 inductive RL
@@ -195,6 +201,8 @@ structure St where
   hsTried : Bool := false
   hsDone : Bool := false
   ctxCancelled : Bool := false
+  lost : List Nat := []             -- streams whose TERMINAL read error was replaced by a late read-deadline expiry (then cleared by the next SetReadDeadline)
+  sdAcked : Bool := false           -- shutdownCompletePending || shutdownCompleteReceived: the peer acknowledged our SHUTDOWN
   -- processes
   rl : RL := .reading
   wl : WL := .sel
@@ -212,6 +220,7 @@ structure St where
 inductive Act
   -- environment
   | envPacket (p : Pkt) | envReadFail | envWriteFail | envCtxCancel | envFire (fail : Bool) | envPoke
+  | envDeadline (sid : Nat)         -- a read deadline armed earlier on stream sid expires now (nobody need be reading)
   | envStart (i : Nat)              -- the application issues call i
   | envServe (i : Nat)              -- blocked caller i is served normally (data / a stream / window space arrives)
   -- the package
@@ -224,7 +233,7 @@ inductive Act
   deriving DecidableEq, Repr, Inhabited
 
 def Act.isEnv : Act → Bool
-  | .envPacket _ | .envReadFail | .envWriteFail | .envCtxCancel | .envFire _ | .envPoke | .envStart _ | .envServe _ => true
+  | .envPacket _ | .envReadFail | .envWriteFail | .envCtxCancel | .envFire _ | .envPoke | .envStart _ | .envServe _ | .envDeadline _ => true
   | _ => false
 
 /-- wake the readers waiting on stream `sid` (every stream if `none`, except those already gone) -/
@@ -291,7 +300,7 @@ def callerStep (ch : Choreo) (s : St) (i : Nat) (arm : Nat) : Option St :=
     match c with
     | .idle _ => none
     | .fin _ _ => none
-    | .rdWait sid woken => if woken then some (setCaller s i (.fin (.rd sid) (readRes s sid))) else none
+    | .rdWait sid woken => if woken && !s.lost.contains sid then some (setCaller s i (.fin (.rd sid) (readRes s sid))) else none
     | .wrBegin =>
       if s.lock.isNone then
         if s.notEst then some (setCaller s i (.fin .wr (.err .notEstablished)))
@@ -308,7 +317,12 @@ def callerStep (ch : Choreo) (s : St) (i : Nat) (arm : Nat) : Option St :=
         else some (setCaller (applyOp ch { s with notEst := true, awake := true } .unblockWrites) i .shWait)
       else none
     | .shWait =>
-      if arm == 0 then (if ch.shCw && s.cw then some (setCaller s i (.fin .sh .nil)) else none)
+      if arm == 0 then
+        (if ch.shCw && s.cw then
+          (if ch.shCwChecks then
+            (if s.lock.isNone then some (setCaller s i (.fin .sh (if s.sdAcked then .nil else .err .shutdownIncomplete))) else none)
+          else some (setCaller s i (.fin .sh .nil)))
+        else none)
       else (if ch.shCtx && s.ctxCancelled then some (setCaller s i (.fin .sh (.err .ctx))) else none)
     | .cl k =>
       match ch.closeApi[k]? with
@@ -338,6 +352,13 @@ def step (ch : Choreo) (s : St) : Act → Option St
   | .envFire f =>
     if s.tc == .idle && !s.timersClosed && s.fuel > 0 then some { s with tc := .spawned f, fuel := s.fuel - 1 } else none
   | .envPoke => if s.tl == .sel && s.fuel > 0 then some { s with tl := .cb, fuel := s.fuel - 1 } else none
+  | .envDeadline sid =>
+    -- before the stream has its terminal error this is the ordinary transient deadline error (not modelled: the reader
+    -- just tries again); afterwards it must leave the terminal error alone
+    if s.fuel > 0 then
+      some { s with fuel := s.fuel - 1,
+                    lost := if ch.dlKeepsTerminal || !(s.unreg || s.gone.contains sid) then s.lost else sid :: s.lost }
+    else none
   | .envStart i =>
     if s.hsDone && s.fuel > 0 then
       match s.callers[i]? with
@@ -368,7 +389,8 @@ def step (ch : Choreo) (s : St) : Act → Option St
         | .reset sid =>
           if s.gone.contains sid || s.unreg then some { s with rl := .reading }
           else some { s with rl := .reading, gone := sid :: s.gone, callers := wakeReaders ch.resetWake (fun x => x == sid) s.callers }
-        | .shutdownComplete => some { applyOps ch s ch.closeProg with rl := .reading }
+        | .shutdownComplete => some { applyOps ch s ch.closeProg with rl := .reading, sdAcked := true }
+        | .shutdownAck => some { s with rl := .reading, sdAcked := true, awake := true }
       else none
     | _ => none
   | .rlCH arm =>
